@@ -21,7 +21,9 @@ def main():
         s = open(p).read()
         a = s.index("### 0.2 Measured coverage of the quick tier")
         b = s.index("The thorough tier widens every dimension")
-        head = ("### 0.2 Measured coverage of the quick tier (seed 1, 16 cores; generated from /verif/evidence by `python -m harness.covtable --write`)\n\n")
+        seeds = sorted({json.load(open(f)).get("seed") for f in glob.glob(os.path.join(C.VERIF, "evidence", "C*.json"))})
+        head = ("### 0.2 Measured coverage of the quick tier (seed %s, 16 cores; generated from /verif/evidence by `python -m harness.covtable --write`)\n\n"
+                % "/".join(str(x) for x in seeds))
         open(p, "w").write(s[:a] + head + table() + "\n" + s[b:])
     else:
         rows()
